@@ -23,7 +23,10 @@ def honestFit {N W} (L : Learner W) (it : Item N) : W :=
   let tr := instances it.data it.train
   L.fit it.p (tr.map (features it.data)) (tr.map (target it.data))
 
-/-- "... and predicting the recorded instances": instance index, true values, predictions -/
+/-- "... and predicting the recorded instances": instance index, true values, predictions.
+"Instance index" = the POSITIONS (`iloc`) the cv splitter yielded for the part; that is what the code stores as
+`index`.  The row labels of the dataset's frame (permuted, offset, duplicated or string labels) are not an input of
+the model at all: true values and features of a record are those of the rows AT these positions. -/
 def honest {N W} (L : Learner W) (it : Item N) (part : Part) : Content :=
   let idx := match part with | .train => it.train | .test => it.test
   let inst := instances it.data idx
